@@ -33,10 +33,17 @@ StrLeaves == { S(<<>>, TRUE), S(<<97>>, TRUE), S(<<40>>, FALSE), S(<<41>>, FALSE
                S(<<169,49,57,57,57>>, TRUE), S(<<0,55>>, TRUE), S(<<7,56>>, TRUE), S(<<1,48,48,49>>, TRUE), S(<<53,1,50,200,51>>, TRUE), S(<<27,27,57>>, TRUE),
                \* line feeds right after the first byte (where the continuation styles put their backslash + end-of-line)
                S(<<97,10,99>>, TRUE), S(<<97,10,10,98>>, TRUE), S(<<10,10>>, TRUE) }
+\* strings and names whose VALUE is the text of a keyword of the object or file syntax: a value is never a keyword
+KwStream == <<115,116,114,101,97,109>>
+KwEndstream == <<101,110,100>> \o KwStream
+KwEndobj == <<101,110,100,111,98,106>>
+KwLeaves == { S(KwStream, TRUE), N(KwStream), S(KwEndstream, TRUE), N(KwEndstream), S(KwEndobj, TRUE), N(KwEndobj),
+              S(<<82>>, TRUE), N(<<82>>), S(<<111,98,106>>, TRUE), N(<<111,98,106>>), N(<<110,117,108,108>>), S(<<110,117,108,108>>, TRUE),
+              N(<<102,97,108,115,101>>), S(<<120,114,101,102>>, TRUE), N(<<116,114,97,105,108,101,114>>), S(<<115,116,97,114,116,120,114,101,102>>, TRUE) }
 NameLeaves == { N(<<>>), N(<<65>>), N(<<65,32,66>>), N(<<35>>), N(<<65,47,66>>), N(<<255>>), N(<<116,114,117,101>>),
                 N(<<70,49>>), N(<<40>>), N(<<37>>), N(<<65,46,66,45,49>>) }
 LeavesFull == {K("null"), K("true"), K("false"), [k |-> "ref", n |-> 12, g |-> 0]}
-              \cup IntLeaves \cup RealLeaves \cup LongNumLeaves \cup StrLeaves \cup NameLeaves
+              \cup IntLeaves \cup RealLeaves \cup LongNumLeaves \cup StrLeaves \cup NameLeaves \cup KwLeaves
 \* reduced alphabet for the deeper exhaustive runs: one or two of each class
 LeavesSmall == {K("null"), K("true"), [k |-> "ref", n |-> 12, g |-> 0],
                 I(<<45,49>>, <<45,49>>), R(<<46,53>>, 5, -1), S(<<40>>, FALSE), S(<<97,32,98>>, TRUE), S(<<7,55,56>>, TRUE), S(<<97,10,99>>, TRUE),
